@@ -528,8 +528,197 @@ def k3_builders(src, case_index):
         src.check(False, f"{name}: v{v} struct failed to encode/decode: {type(e).__name__}: {e}")
 
 
+# ------------------------------------------------------------------------------------------
+# K4: whole messages.  Every struct class (request and response, every version) is decoded by the real
+# Struct.decode/Schema.decode/Array.decode/... composition from bytes laid out by a reference encoder that walks
+# the schema tree with the protocol guide's primitive layouts; the first integer leaves are symbolic over their
+# full wire range, so "decode returns the original value" is a solver verdict for them.  The encode direction
+# (bytes.join cannot take symbolic buffers) runs on the boundary instantiation of the same tree.
+
+
+def _all_struct_classes():
+    from aiokafka.protocol.struct import Struct
+    out = []
+    for c in _all_subclasses(Struct):
+        if c.__module__.startswith("aiokafka.protocol") and isinstance(c.__dict__.get("SCHEMA", None), T.Schema) \
+                and c.SCHEMA.fields and c.__init__ is Struct.__init__:
+            # (request headers have their own constructor and are never decoded by a client: K2b covers them)
+            out.append(c)
+    return sorted(out, key=lambda c: (c.__module__, c.__name__))
+
+
+STRUCTS = _all_struct_classes()
+_K4_GROUPS = sorted({c.__module__.rsplit(".", 1)[1] for c in STRUCTS})
+_K4_SYM = 6  # symbolic integer leaves per message
+_INT_RANGE = {T.Int8: (8, True), T.Int16: (16, True), T.Int32: (32, True), T.UInt32: (32, False), T.Int64: (64, True)}
+
+
+def _be(v, bits):
+    return [(v >> s) & 0xFF for s in range(bits - 8, -1, -8)]
+
+
+class _Gen:
+    """value tree + reference wire bytes for one schema, one shape"""
+
+    def __init__(self, src, shape, symbolic):
+        self.src, self.shape, self.left, self.n = src, shape, (_K4_SYM if symbolic else 0), 0
+
+    def integer(self, typ):
+        bits, signed = _INT_RANGE[typ]
+        lo, hi = (-(1 << (bits - 1)), (1 << (bits - 1)) - 1) if signed else (0, (1 << bits) - 1)
+        self.n += 1
+        if self.left > 0:
+            self.left -= 1
+            # the wire bytes are the variables; the field value is their big-endian two's complement reading
+            bs = self.src.bytes(f"i{self.n}_", bits // 8)
+            acc = 0
+            for b in bs:
+                acc = (acc << 8) + b
+            if signed:
+                acc = acc - (((acc >> (bits - 1)) & 1) << bits)
+            return acc, list(bs)
+        else:
+            v = (lo, hi, -1 if signed else 1, 0)[(self.n + self.shape) % 4]
+        return v, _be(v & ((1 << bits) - 1), bits)
+
+    def value(self, f):
+        sh = self.shape
+        if f in _INT_RANGE:
+            return self.integer(f)
+        if f is T.Boolean:
+            v = bool((self.n + sh) % 2)
+            self.n += 1
+            return v, [1 if v else 0]
+        if f is T.Float64:
+            import struct as _st
+            v = (0.0, 1.5, -2.25)[sh]
+            return v, list(_st.pack(">d", v))
+        if f is T.UnsignedVarInt32:
+            v = (0, 127, 128, 0xFFFFFFFF)[(self.n + sh) % 4]
+            self.n += 1
+            return v, _ref_uvarint(v)
+        if isinstance(f, T.CompactString):
+            s = (None, "a", "té€")[sh]
+            raw = None if s is None else s.encode(f.encoding)
+            return s, _ref_uvarint(0 if raw is None else len(raw) + 1) + list(raw or b"")
+        if isinstance(f, T.String):
+            s = (None, "a", "té€")[sh]
+            raw = None if s is None else s.encode(f.encoding)
+            return s, _be((-1 if raw is None else len(raw)) & 0xFFFF, 16) + list(raw or b"")
+        if f is T.CompactBytes:
+            b = (None, b"", b"\x00\xff\x80")[sh]
+            return b, _ref_uvarint(0 if b is None else len(b) + 1) + list(b or b"")
+        if f is T.Bytes:
+            b = (None, b"", b"\x00\xff\x80")[sh]
+            return b, _be((-1 if b is None else len(b)) & 0xFFFFFFFF, 32) + list(b or b"")
+        if f is T.TaggedFields:
+            d = ({}, {}, {0: b"", 130: b"\x01\x02"})[sh]
+            out = _ref_uvarint(len(d))
+            for k, v in d.items():
+                out += _ref_uvarint(k) + _ref_uvarint(len(v)) + list(v)
+            return d, out
+        if isinstance(f, T.Array):  # CompactArray is a subclass
+            compact = isinstance(f, T.CompactArray)
+            n = (None, 1, 2)[sh] if self.n % 2 else (0, 1, 2)[sh]
+            self.n += 1
+            head = _ref_uvarint(0 if n is None else n + 1) if compact else _be((-1 if n is None else n) & 0xFFFFFFFF, 32)
+            if n is None:
+                return None, head
+            vals, out = [], head
+            for _ in range(n):
+                v, b = self.value(f.array_of)
+                vals.append(v)
+                out = out + b
+            return vals, out
+        if isinstance(f, T.Schema):
+            vals, out = [], []
+            for sub in f.fields:
+                v, b = self.value(sub)
+                vals.append(v)
+                out = out + b
+            return tuple(vals), out
+        raise NotImplementedError(f"field type {f!r}")
+
+
+def _same(src, got, want):
+    """symbolic-aware deep equality of a decoded tree and the generated one"""
+    if isinstance(want, (list, tuple)):
+        if got is None or len(got) != len(want):
+            return False
+        return s_and(*[_same(src, g, w) for g, w in zip(got, want)]) if want else True
+    if isinstance(want, dict):
+        return isinstance(got, dict) and list(got) == list(want) and all(SymBuf(got[k]) == SymBuf(want[k]) for k in want)
+    if isinstance(want, (bytes, bytearray)):
+        return got is not None and (SymBuf(got) == SymBuf(want))
+    if want is None:
+        return got is None
+    if isinstance(want, bool):
+        return (got == want) if isinstance(got, (bool, SymInt, core_SymBool)) else False
+    return got == want
+
+
+from symx.core import SymBool as core_SymBool  # noqa: E402
+
+
+def k4_messages(src, group):
+    classes = [c for c in STRUCTS if c.__module__.rsplit(".", 1)[1] == group]
+    cls = classes[src.choice("class", len(classes))]
+    shape = src.choice("shape", 3)
+    name = f"{cls.__name__}"
+    real_f64 = T.Float64._unpack
+    with _Env(), patched(T.Float64, _unpack=lambda b: real_f64(b.to_bytes() if isinstance(b, SymBuf) else b)):
+        # decode direction, symbolic leaves
+        g = _Gen(src, shape, True)
+        try:
+            want, wire = g.value(cls.SCHEMA)
+        except NotImplementedError as e:
+            src.check(False, f"{name}: harness cannot lay out the schema: {e}")
+            return
+        if src.twin and wire:
+            wire = wire[:-1] + [wire[-1] ^ 1]
+        rd = SymReader(SymBuf(wire + [src.byte("trail")]))
+        try:
+            obj = cls.decode(rd)
+        except (ValueError, TypeError, IndexError, KeyError, AssertionError, shims.error) as e:
+            src.check(False, f"{name}: decode of a well-formed message raised {type(e).__name__}: {e}", shape=shape)
+            return
+        got = tuple(obj.__dict__[n] for n in cls.SCHEMA.names)
+        src.check(_same(src, got, want), f"{name}: decoding the protocol-guide layout of a message does not return its fields",
+                  shape=shape)
+        src.check(rd.pos == len(wire), f"{name}: decode consumed {rd.pos} bytes of a {len(wire)}-byte message", shape=shape)
+    # encode direction on the boundary instantiation (concrete)
+    g = _Gen(src, shape, False)
+    want, wire = g.value(cls.SCHEMA)
+    try:
+        enc = cls(*want).encode()
+    except (ValueError, TypeError, IndexError, KeyError, AssertionError, shims.error) as e:
+        src.check(False, f"{name}: encode of in-range field values raised {type(e).__name__}: {e}", shape=shape)
+        return
+    src.check(list(enc) == wire, f"{name}: encoding differs from the protocol-guide layout of its schema", shape=shape)
+    back = cls.decode(bytes(enc))
+    src.check(_same(src, tuple(back.__dict__[n] for n in cls.SCHEMA.names), want),
+              f"{name}: decode(encode(m)) != m", shape=shape)
+
+
 def harnesses(tier):
     hs = []
+    for group in _K4_GROUPS:
+        n = len([c for c in STRUCTS if c.__module__.rsplit(".", 1)[1] == group])
+        hs.append(Harness(name=f"K4_messages_{group}", fn=k4_messages, params={"group": group},
+                          functions=[T.Schema.encode, T.Schema.decode, T.Array.encode, T.Array.decode, T.CompactArray.encode,
+                                     T.CompactArray.decode, T.String.decode, T.CompactString.decode, T.Bytes.decode,
+                                     T.CompactBytes.decode, T.TaggedFields.decode],
+                          shape="K", twin_max_paths=3 * n + 5,
+                          symbolic_vars=f"the first {_K4_SYM} integer fields of the message over their full wire range (Int8..Int64, "
+                                        "UInt32); one trailing byte; struct class and one of 3 shapes (null/empty, 1-element, "
+                                        "2-element arrays; null / ASCII / multi-byte strings; null / empty / 3-byte blobs; 0 or 2 "
+                                        "tagged fields) are choices; remaining integers at type boundaries",
+                          bounds={"struct_classes": n, "shapes": 3, "symbolic_int_fields": _K4_SYM},
+                          stubs=["struct.Struct(fmt).pack/unpack by definition (format string taken from the code)",
+                                 "io.BytesIO -> SymReader"],
+                          note="reference layout walks the class's own SCHEMA tree: composition (Struct/Schema/Array/"
+                               "CompactArray/String/Bytes/TaggedFields) is decided, conformance of the schema tables to "
+                               "Kafka's message definitions is not"))
     for i, case in enumerate(_k3_cases()):
         hs.append(Harness(name=f"K3_builder_{case[0].replace('.', '_').replace('(', '_').replace(')', '')}", fn=k3_builders,
                           params={"case_index": i}, functions=[Request.prepare], shape="K",
